@@ -44,7 +44,9 @@ int32_t jls_dt_buffer_to_f64(const void * src, uint32_t src_datatype, double * d
             for (uint32_t i = 0; i < samples; i += 2) {
                 uint8_t k = s[i >> 1];
                 dst[i + 0] = (double) uint4_to_int8(k);
-                dst[i + 1] = (double) uint4_to_int8(k >> 4);
+                if ((i + 1) < samples) {
+                    dst[i + 1] = (double) uint4_to_int8(k >> 4);
+                }
             }
             break;
         }
@@ -66,6 +68,9 @@ int32_t jls_dt_buffer_to_f64(const void * src, uint32_t src_datatype, double * d
                 *dst++ = (double) ((k >> 6) & 1);
                 *dst++ = (double) ((k >> 7) & 1);
             }
+            for (uint32_t i = 0; i < (samples & 7); ++i) {  // trailing partial byte
+                *dst++ = (double) ((s[samples / 8] >> i) & 1);
+            }
             break;
         }
         case JLS_DATATYPE_U4:  {
@@ -73,7 +78,9 @@ int32_t jls_dt_buffer_to_f64(const void * src, uint32_t src_datatype, double * d
             for (uint32_t i = 0; i < samples; i += 2) {
                 uint8_t k = s[i >> 1];
                 dst[i + 0] = (double) (k & 0x0f);
-                dst[i + 1] = (double) ((k >> 4) & 0x0f);
+                if ((i + 1) < samples) {
+                    dst[i + 1] = (double) ((k >> 4) & 0x0f);
+                }
             }
             break;
         }
